@@ -32,7 +32,9 @@ var preludeDecls = []preludeDecl{
 	{"pf_errval", "(declare-fun pf_errval (String) F64)", []string{"F64"}},
 	{"str_lower", "(declare-fun str_lower (String) String)", nil},
 	{"str_repeat", "(declare-fun str_repeat (String Int) String)", nil},
-	{"str_join", "(declare-fun str_join ((Array Int String) Int String) String)", nil},
+	{"str_join", "(declare-fun str_join ((Array Int String) Int String) String)\n" +
+		"(assert (forall ((a (Array Int String)) (n Int) (sep String) (i Int)) (! (=> (and (<= 0 i) (< i n)) (str.contains (str_join a n sep) (select a i))) :pattern ((str_join a n sep) (select a i)))))", nil},
+	{"fn_app_ss", "(declare-fun fn_app_ss (Int String) String)", nil},
 	{"str_itoa", "(declare-fun str_itoa (Int) String)", nil},
 	{"os_getenv", "(declare-fun os_getenv (String) String)", nil},
 	{"path_base", "(declare-fun path_base (String) String)", nil},
